@@ -24,7 +24,7 @@ theorem tgti_resumeFrame {st : Pid → Status} {w : World} (h : TgtI st w) (hp :
     · rename_i x hx
       have hA := allButIntr_notIntr
       have h1 : TgtI st (guardWaitLeave w x.guard p sig) :=
-        ec_guardWaitLeave (tgti_closed st) hA.event hA.res _ _ _ _ h
+        ec_guardWaitLeave (tgti_closed st) hA.event ⟨hA.res, hA.cond⟩ _ _ _ _ h
       split
       · exact ej_poolRollback (tgti_closed st) hA _ _ _ _ h1
       · exact tgti_poolLoop h1 (pinv_guardWaitLeave hp _ _ _) p (dra_guardWaitLeave hd _ _ _)
@@ -247,11 +247,11 @@ theorem fullinv_dispatch {w w' : World} (h : FullInv w) (hd : dispatch w = some 
                   exact ⟨⟨h1A.hold.of_same (fun r => by simp) (fun q r => by simp), winv_cancelAwaiteds h1A.wait _,
                       dr_cancelAwaiteds h1A.dead _,
                       Silent.of_tgt (w := afterPop w t ev')
-                        (ec_cancelAwaiteds (tgt_closed _) internal_loud.event internal_loud.res _ _ h1A.silent)
+                        (ec_cancelAwaiteds (tgt_closed _) internal_loud.event ⟨internal_loud.res, internal_loud.cond⟩ _ _ h1A.silent)
                         (fun q => by simp)⟩,
                     pinv_cancelAwaiteds h1P _,
                     SilentI.of_tgt (w := afterPop w t ev')
-                      (ec_cancelAwaiteds (tgti_closed _) hA.event hA.res _ _ h1S) (fun q => by simp)⟩
+                      (ec_cancelAwaiteds (tgti_closed _) hA.event ⟨hA.res, hA.cond⟩ _ _ h1S) (fun q => by simp)⟩
                 · split
                   · exact (fullinv_resumeProc h1 _ _).intr
                   · exact h1S
